@@ -102,23 +102,16 @@ func propC16(a *Analysis, r *Registry) {
 			env := X.EnvFor(fn, "min", "max", "base")
 			env.Let("lo", "ite(max<min, max, min)")
 			env.Let("hi", "ite(max<min, min, max)")
-			isErr := func(rt *ssa.Return) bool {
-				c, ok := rt.Results[1].(*ssa.Const)
-				return !(ok && c.Value == nil)
-			}
-			got, n := fc.ReturnCond(isErr)
-			if n == 0 {
-				r.Fail("C-decision", name+"/errors", b.pos(fn), "NewLog never returns an error")
-				return
-			}
-			b.Eq("C-decision", name+"/errors", b.pos(fn), got, env, "base<=1 || (lo<=0 && 0<=hi)")
-			// error type
-			okType := true
-			for _, rt := range fc.Ctx.Returns() {
-				if !isErr(rt) {
+			// the alternatives of the error result (one per return, or one per branch assigning a
+			// named result that is returned once)
+			got, n, okType := S.False(), 0, true
+			for _, al := range fc.ResultAlts(1) {
+				if c, ok := al.V.(*ssa.Const); ok && c.Value == nil {
 					continue
 				}
-				mi, ok := rt.Results[1].(*ssa.MakeInterface)
+				n++
+				got = S.Or(got, al.Cond)
+				mi, ok := al.V.(*ssa.MakeInterface)
 				if !ok {
 					okType = false
 					continue
@@ -127,6 +120,11 @@ func propC16(a *Analysis, r *Registry) {
 					okType = false
 				}
 			}
+			if n == 0 {
+				r.Fail("C-decision", name+"/errors", b.pos(fn), "NewLog never returns an error")
+				return
+			}
+			b.Eq("C-decision", name+"/errors", b.pos(fn), got, env, "base<=1 || (lo<=0 && 0<=hi)")
 			if okType {
 				r.OK("C-decision", name+"/error-type", b.pos(fn), "every error returned is a RangeErr")
 			} else {
